@@ -25,9 +25,14 @@ Known defects of the pinned tree (generator avoids their triggers; witnesses in 
   comp_scope       a list comprehension that follows a sibling lambda/def/genexp in its function (py>=3.12)
   comp_var         the variable of a list comprehension is also read as a global in the formula (py>=3.12)
   ifexp_order      `a if c else b` with function scopes in both a and c (libcst vs symtable order)
-  self_local       a local variable / parameter named `self`
   (modelx itself rejects global names in default values of cells parameters: never generated)
 Repaired in /repo (the shapes are generated; witnesses stay in corpus/C15, reproducers in corpus/fixed/C15_<key>.py):
+  self_local       a parameter / local variable / nested function / lambda parameter / comprehension variable named `self`
+                   hid the instance parameter of the generated method.  Such a formula is outside the export subset
+                   (Export/Model.v no_self is a hypothesis of every C15 theorem, Run.v stbl_okb checks it; export_model now
+                   documents the limitation): export must REFUSE the model with a ValueError naming 'self'.  The generator
+                   names a fresh local `self` with probability P_SELF; for such a model (refusal_expected) (P) demands the
+                   refusal of both exports instead of comparing values, (T) ties the other spaces only, (E) is not run
   builtin_child    a child space / ItemSpace parameter named like a built-in was not prefixed: child spaces ord / vars and
                    parameters id abs pow len hash sorted are generated.  The exporter now hands references + child spaces +
                    parameters (own and enclosing) + cells to FormulaTransformer: the dump mirrors that list ("xtop"); Run.v
@@ -143,6 +148,13 @@ def has_binder(e):
     return False
 
 
+def refusal_expected(case):
+    """a formula of the model binds the name `self` (parameter, local, nested def, lambda parameter, comprehension
+    variable): the model is outside the export subset (documented limitation; Export/Model.v no_self) and
+    export must refuse it (self_local, repaired in /repo)"""
+    return any(G.binds_self([p for p, _ in c["params"]], c["body"]) for sp in case["spaces"] for c in sp["cells"])
+
+
 # --------------------------------------------------------------------------
 def p_oracle(case, res):
     """(P) on one case: list of failure dicts, stats"""
@@ -150,6 +162,15 @@ def p_oracle(case, res):
     st = {"queries": 0, "compared": 0, "model_err": 0}
     if res.get("build_err"):
         return None, st
+    if refusal_expected(case):
+        # not a model of the export subset: both exports must be refused, by the error that names the cause
+        for v in "ab":
+            msg = (res.get("export_err") or {}).get(v)
+            if msg is None or not (msg.startswith("ValueError:") and "'self'" in msg):
+                fails.append({"case": case["id"], "detail": "a formula binds the name `self` (outside the export subset): export must refuse the "
+                              "model with a ValueError naming 'self', but (variant %s) %s" % (v, "it exported the model" if msg is None else "it failed with " + msg),
+                              "script": repro_script(case)})
+        return fails, st
     if res.get("export_err"):
         for v, msg in res["export_err"].items():
             fails.append({"case": case["id"], "detail": "export/import of the generated package failed (variant %s): %s" % (v, msg),
@@ -181,6 +202,8 @@ def t_cases(case, res, seen, spec_asts):
     """(T) observations of one case -> (coq terms, meta), direct structural mismatches"""
     terms, metas, direct = [], [], []
     for ob in res.get("obs", []):
+        if ob.get("exc") == "ValueError" and refusal_expected(case):
+            continue        # the refusal itself ((P) checks its message); the formulas of the other spaces are tied as usual
         if ob.get("exc"):
             direct.append({"case": case["id"], "detail": "FormulaTransformer: %s %s" % (ob["exc"], ob.get("code", ""))})
             continue
@@ -307,7 +330,8 @@ def run(tier, seed, rng):
     out.rule = ("random models of the documented export subset (static/nested/derived/parametrised spaces; literal, pickled, space- and "
                 "cells-valued references; def and lambda cells with nested lambdas, nested (recursive) defs, list comprehensions, generator "
                 "expressions, local assignments, keyword calls, local/parameter names shadowing globals and built-ins, references and cells "
-                "shadowing built-ins; cached and uncached cells; space- and model-level references whose values are instances of "
+                "shadowing built-ins; child spaces and ItemSpace parameters named like built-ins; now and then a local named `self` (export must "
+                "refuse that model); cached and uncached cells; space- and model-level references whose values are instances of "
                 "SUBCLASSES of int/float/str (IntEnum/StrEnum members of http and signal, float/str/int subclasses of harness/c15lits.py), "
                 "read by probe cells through type(r).__name__, .name, .value, methods of the subclass and arithmetic, also via inheritance, "
                 "child/referenced spaces and ItemSpaces); every cells queried at 1-2 argument tuples per access path, twice (cached "
@@ -392,7 +416,8 @@ def run(tier, seed, rng):
                     out.tie_mismatches.append({"case": c["id"], "model": c, "detail": "module-level names handed to FormulaTransformer for %s differ from "
                                                "references + child spaces + parameters + cells of the space: %r not among %r" % (sp["repr"], sp["xtop"], sorted(obs_tops))})
                     break
-        t, k2 = e_case(c, r)
+        # a model that binds `self` does not satisfy Run.v model_okb (no_self): no (E) for it
+        t, k2 = (None, 0) if refusal_expected(c) else e_case(c, r)
         if t:
             eterms.append(t); emeta.append((c, r)); nq += k2
     if dump_errs > max(3, len(cases) // 10):
@@ -467,6 +492,7 @@ def run(tier, seed, rng):
                                                          for rf in s["refs"] if rf[1][0] == "lit"),
                             "probe_cells": sum(1 for c in cases for s in c["spaces"] for ce in s["cells"] if ce.get("probe")),
                             "probe_queries": probe_q, "probe_queries_compared_4way": probe_cmp},
+                        "models_binding_self_refused_by_export": sum(1 for c in cases if refusal_expected(c)),
                         "uncached_cells": sum(1 for c in cases for s in c["spaces"] for ce in s["cells"] if not ce["cached"]),
                         "cells": sum(len(s["cells"]) for c in cases for s in c["spaces"]),
                         "syntax_nodes_in_tie": kinds,
